@@ -160,9 +160,12 @@ CHAIN_POOL = [
     [('split', [('sk', 0)], [('delay', 0, 0)])],
     # a centre generator that draws several centres for a block of ONE feature (the single input of the input branch)
     [('split', [], [('rbf', 4, 3)])],
+    # an angle pre-processor built with its defaults (no unwrapping on the way back), episodes far apart: what it gives back
+    # for a sample does not depend on the samples around it
+    [('angle', (0,), False, (0,))],
 ]
 POOL_SINGLE_EPISODE = {6}          # indices of CHAIN_POOL that are generated with one episode
-POOL_FAR_EPISODES = {8}            # ... with an episode feature and episodes alternating around -2.6 / +2.6
+POOL_FAR_EPISODES = {8, 12}        # ... with an episode feature and episodes alternating around -2.6 / +2.6
 
 
 def _leaves(specs):
@@ -656,15 +659,19 @@ def c07_prediction(case, rng, kp0):
     # the prediction of a sample given alone is the row it gets inside the batch
     if w == 1 and not unwrap:
         Xa = np.asarray(X, dtype=float)
-        lab = Xa[-1, 0] if ep else None
-        rows = np.flatnonzero(Xa[:, 0] == lab) if ep else np.arange(Xa.shape[0])
-        Pl = P[P[:, 0] == lab] if ep else P
-        for j in sorted(set([0, len(rows) // 2, len(rows) - 1])):
-            alone = kp.predict(Xa[[rows[j]]])
-            if alone.shape != Pl[[j]].shape or not close(alone, Pl[[j]], 1e-9):
-                return False, dict(what='the one-step prediction of a sample given alone differs from its row in the prediction of '
-                                        'the whole matrix (no delay in the pipeline)', row=int(rows[j]),
-                                   alone=alone.tolist(), in_batch=Pl[[j]].tolist())
+        # ... also with the Koopman matrix that leaves the lifted state where it is (the prediction is then the sample itself)
+        kp_same = build_real_top(case['chain'], regressor=pykoop.DataRegressor(coef=np.vstack((np.eye(nso), np.zeros((nuo, nso))))))
+        kp_same.fit(case.get('Xfit', X), n_inputs=nu, episode_feature=ep)
+        for kpx, Px, which in ((kp, P, 'a random contractive Koopman matrix'), (kp_same, kp_same.predict(X), 'the identity as Koopman matrix')):
+            for lab in (sorted(set(Xa[:, 0].tolist())) if ep else [None]):
+                rows = np.flatnonzero(Xa[:, 0] == lab) if ep else np.arange(Xa.shape[0])
+                Pl = Px[Px[:, 0] == lab] if ep else Px
+                for j in range(min(len(rows), 12)):
+                    alone = kpx.predict(Xa[[rows[j]]])
+                    if alone.shape != Pl[[j]].shape or not close(alone, Pl[[j]], 1e-9):
+                        return False, dict(what='the one-step prediction of a sample given alone differs from its row in the prediction '
+                                                'of the whole matrix (no delay in the pipeline)', row=int(rows[j]), koopman_matrix=which,
+                                           alone=alone.tolist(), in_batch=Pl[[j]].tolist())
     # ---- trajectories
     x0 = pykoop.extract_initial_conditions(X, min_samples=w, n_inputs=nu, episode_feature=ep)
     u = pykoop.extract_input(X, n_inputs=nu, episode_feature=ep)
